@@ -181,6 +181,13 @@ theorem blockFind_nodup {δ : Type} (k : Tree α → δ) (f : Tree α → Bool) 
   rw [List.map_append, List.nodup_append] at h1
   exact List.Nodup.sublist ((List.filter_sublist).map k) h1.1
 
+example : ((findSections (fun _ => true) 2 s1).map fun s : Sec => s.val.id).Nodup :=
+  find_nodup (fun s : Sec => s.val.id) _ 2 s1 (by decide)
+example : ((fileFindSections (Flt.sec (.type "t")) unlimited [s1, s6]).map fun s : Sec => s.val.id).Nodup :=
+  fileFind_nodup (fun s : Sec => s.val.id) _ _ _ (by decide)
+example : (findSections (Flt.sec (.type "u")) unlimited s1).Perm [s2, s5] :=
+  unlimited_depth_all_descendants _ unlimited s1 (by decide)
+
 /-- everything a search returns is a node of the searched forest and is accepted by the filter -/
 theorem fileFind_sound (f : Tree α → Bool) (maxd : Nat) (roots : List (Tree α)) {x : Tree α}
     (h : x ∈ fileFindSections f maxd roots) : x ∈ nodesL roots ∧ f x = true := by
@@ -312,6 +319,64 @@ theorem referringDataArraysIn_eq_bruteforce (w : World) (hw : SoundWorld w) (sid
   intro h hh
   exact metaFilter_iff w sid h.md hw.height (hw.das b hb h hh)
 
+theorem referringTagsIn_eq_bruteforce (w : World) (hw : SoundWorld w) (sid : String) (b : Blk) (hb : b ∈ w.blocks) :
+    secReferringTagsIn w sid b = b.tags.filter fun h => h.md == some sid := by
+  unfold secReferringTagsIn
+  apply List.filter_congr
+  intro h hh
+  exact metaFilter_iff w sid h.md hw.height (hw.tags b hb h hh)
+
+theorem referringMultiTagsIn_eq_bruteforce (w : World) (hw : SoundWorld w) (sid : String) (b : Blk) (hb : b ∈ w.blocks) :
+    secReferringMultiTagsIn w sid b = b.mtags.filter fun h => h.md == some sid := by
+  unfold secReferringMultiTagsIn
+  apply List.filter_congr
+  intro h hh
+  exact metaFilter_iff w sid h.md hw.height (hw.mtags b hb h hh)
+
+theorem referringSourcesIn_perm_bruteforce (w : World) (hw : SoundWorld w) (sid : String) (b : Blk) (hb : b ∈ w.blocks) :
+    (secReferringSourcesIn w sid b).Perm ((nodesL b.sources).filter fun s => s.val.md == some sid) := by
+  unfold secReferringSourcesIn
+  refine (unlimited_depth_whole_block _ unlimited b.sources (hw.srcHeight b hb)).trans ?_
+  rw [List.filter_congr (fun s hs => metaFilter_iff w sid s.val.md hw.height (hw.srcs b hb s hs))]
+
+/-- the back references carry no id twice when the ids of the sources of the block are pairwise distinct -/
+theorem referringSourcesIn_nodup (w : World) (sid : String) (b : Blk) (hnd : ((nodesL b.sources).map (·.val.id)).Nodup) :
+    ((secReferringSourcesIn w sid b).map (·.val.id)).Nodup :=
+  blockFind_nodup (·.val.id) _ unlimited b.sources hnd
+
+/-- a sample world: two blocks, holders pointing at the sections s2 and s7, a source tree with metadata -/
+def bRef : Blk :=
+  { id := "b1", md := some "s2", das := [⟨"a1", some "s2", ["o2"]⟩, ⟨"a2", some "s7", []⟩], tags := [⟨"t1", some "s2", ["o1", "o2"]⟩],
+    sources := [.node ⟨"o1", "r", "t", some "s7"⟩ [.node ⟨"o2", "x", "t", some "s2"⟩ []]] }
+def wRef : World :=
+  { sections := [s1, s6],
+    blocks := [ bRef,
+                { id := "b2", das := [⟨"a3", some "s2", []⟩, ⟨"a4", none, []⟩] } ] }
+
+theorem wRef_sound : SoundWorld wRef := by
+  have hs2 : ∃ s ∈ nodesL wRef.sections, s.val.id = "s2" := ⟨s2, by decide, rfl⟩
+  have hs7 : ∃ s ∈ nodesL wRef.sections, s.val.id = "s7" := ⟨s7, by decide, rfl⟩
+  have res : ∀ md : Option String, (md = some "s2" ∨ md = some "s7" ∨ md = none) → Resolves wRef md := by
+    intro md h tgt e
+    rcases h with h | h | h <;> rw [h] at e <;> cases e
+    · exact hs2
+    · exact hs7
+  refine ⟨by decide, ?_, ?_, ?_, ?_, ?_, ?_⟩
+  · intro b hb; apply res; revert b; decide
+  · intro b hb h hh; apply res; revert h; revert b; decide
+  · intro b hb h hh; apply res; revert h; revert b; decide
+  · intro b hb h hh; apply res; revert h; revert b; decide
+  · decide
+  · intro b hb s hs; apply res; revert s; revert b; decide
+
+example : (secReferringDataArrays wRef "s2").map (·.id) = ["a1", "a3"] := by
+  rw [referringDataArrays_eq_bruteforce wRef wRef_sound]; decide
+example : (secReferringBlocks wRef "s2").map (·.id) = ["b1"] := by
+  rw [referringBlocks_eq_bruteforce wRef wRef_sound]; decide
+example : ((secReferringSources wRef "s2").map (·.val.id)).Perm ["o2"] := by
+  have := (referringSources_perm_bruteforce wRef wRef_sound "s2").map (·.val.id)
+  exact this.trans (by decide)
+
 /-! ## back references of a source -/
 
 /-- **referring_eq_bruteforce (of a source)** — membership: exactly the data arrays / tags / multi tags of the block whose
@@ -321,6 +386,9 @@ theorem srcReferring_mem (b : Blk) (sid : String) (h : Holder) :
     (h ∈ srcReferringTags b sid ↔ h ∈ b.tags ∧ sid ∈ h.srcs) ∧
     (h ∈ srcReferringMultiTags b sid ↔ h ∈ b.mtags ∧ sid ∈ h.srcs) := by
   simp [srcReferringDataArrays, srcReferringTags, srcReferringMultiTags, srcFilter, List.mem_filter]
+
+example : (srcReferringDataArrays bRef "o2").map (·.id) = ["a1"] ∧ (srcReferringTags bRef "o1").map (·.id) = ["t1"] := by
+  decide
 
 theorem srcReferring_sublist (b : Blk) (sid : String) :
     (srcReferringDataArrays b sid).Sublist b.das ∧ (srcReferringTags b sid).Sublist b.tags ∧
